@@ -69,6 +69,13 @@ def edits(blob, tier, stride=1):
 def sig_worker(job):
     alg, kw, tier = job
     acc = core.Acc()
+    # keys of every other type have been constructed in this process before (state shared between key objects
+    # of one family must not make a relabelled signature acceptable)
+    for _a, _kw in KEYTYPES:
+        try:
+            asyncssh.import_public_key(P.key('c16-' + _a, _a, **_kw).export_public_key())
+        except Exception:           # pylint: disable=broad-except
+            pass
     try:
         key = P.key('c16-' + alg, alg, **kw)
         other = P.key('c16b-' + alg, alg, **kw)
